@@ -71,6 +71,10 @@ CHECKS = {
          "Source texts (all repo .lisp files, random token trees with comments/blank lines/tabs/CRLF in every gap incl. inside prefix forms and before closing brackets, every literal spelling and bracket kind, 16 token-level mutations) are formatted under the CLI default config, random indent/blank-line/rules configs, compact+strip, and strip or compact alone; strict parses of input and output must be identical node by node, an independently read token tree must match in spellings and bracket kinds, every comment must survive in order anchored to the same tree path, Format(Format(x)) must equal Format(x) byte for byte, and rejected input must yield an error and zero bytes.",
          "The documented re-sugaring of #' / #^ and hoisting of comments out of a prefix gap are treated as allowed normalisations; layout is judged only through idempotence; violations are shrunk and keyed by the minimised input's class (notes/NOTES-C16.md).",
          "DESIGN.md 4/C16"),
+ "C17": ("exploration", "twin execution of original vs minified sessions in fresh runtimes (value, Stderr, error condition per file) + determinism twin (three Minify calls in-process, re-minification in the driver process) + symbol-map inversion against an independent tokenizer; failures shrunk to a keyed minimal session",
+         "Generated statically scoped sessions of 1-4 files (every binding form, shadowing of locals/globals/builtins, macros with templates, macrolet, packages with export / use-package / qualified references across files, keywords, quoted data, minifier-like identifiers) are minified with the command's defaults and with rename-exports / parameter renaming / exclusion lists; the minified files must read, and loaded in order into a fresh runtime give the same per-file value, output and error condition as the originals; three Minify calls and a second process must agree byte for byte; every reported rename must sit on a symbol token of the original and invert through the map.  31 fixed probe sessions, one family per known defect of the scope analysis, run through the same oracle: a family whose probe fails is reported under its fixed key and its trigger is kept out of the random workload (counted), a family whose probes pass is generated and judged again.",
+         "Preconditions of the property are enforced by construction and re-checked on every shrink candidate (no computed symbols, no definitions inside function bodies, hygienic macros, keyword arguments only where parameters are preserved); error messages, traces and printed function values are not compared; the evaluator is the ground truth, no part of analysis/ or minifier/ is used by the oracle.",
+         "DESIGN.md 4/C17"),
  "C18": ("exploration", "reference-model runtime monitor: the model records the failing syntax node and the chain of active calls, the renderer records every node's span; compared with (*LVal).Source() and CallStack() under elimination off (exact) and on (subsequence justified by a tail-elision hook)",
          "Failing programs (generated programs with a buried ill-typed / wrong-arity / unbound / error form at every position class the generator reaches, macro templates with the failing form written in the template, spliced from the call site, or built without position, and tail loops whose last turn makes a failing tail call) are rendered with random layout; the real error's location must be the span of the form the model identifies for the judged classes, and the stack trace, innermost first, must equal the model's active-call chain with call-site positions when elimination is off, and with elimination on be that trace minus frames a tail-elision hook saw collapsed.",
          "Function calls are active from application, operators while their sub-forms run, macros only during expansion; callee call sites of calls made by builtins on the program's behalf are not compared; error classes the statement does not name are only required to lie inside the source; a function bound under several global names may be reported under any of them.",
